@@ -15,7 +15,7 @@
    that contains itself) is an error (fix 46c2be4).
    Domain: [flat_merges] — no mapping that can be the source of a merge has a merge key itself; the merge key
    is the plain key "<<" (which the decoder tags !!merge).  A merge key naming an open anchor is an error like
-   an alias to one in value position (fix <COMMIT>: checkAliasCycles; before it DeAnchor did not return).
+   an alias to one in value position (fix 2965816: checkAliasCycles; before it DeAnchor did not return).
    Outside [flat_merges] the Go result depends on the HISTORY of the pointed-to nodes: an alias in value
    position processes its target in place, so a later `<<: *n` copies the processed node (no "<<" left) where
    without that alias it copies the raw one; a left-over "<<" entry (it keeps its !!merge tag) is merged when
